@@ -2187,7 +2187,7 @@ class OrderedNamespaceSet(NamespaceSet[_NSO], MutableSequence[_NSO], Generic[_NS
             self._order[s] = o
         else:
             deleted_items = self._order[s]
-            new_items = itertools.islice(o, len(deleted_items))
+            new_items = list(itertools.islice(o, len(deleted_items)))
             successful_new_items = []
             try:
                 for i in new_items:
